@@ -836,6 +836,17 @@ func computeSCEVBody(v ssa.Value, loop *Loop, depth int) SCEV {
 		left := computeSCEV(binOp.X, loop, depth+1)
 		right := computeSCEV(binOp.Y, loop, depth+1)
 		res := foldSCEV(binOp.Op, left, right, loop)
+		// Expressions are evaluated over unbounded integers. A result of constant operands that
+		// leaves the range of the operation's type has wrapped around in the program
+		// (uint8(200)+uint8(100) is 44): what is built on it ((lo+hi)/2) must see that value.
+		if c := res.EvaluateAt(nil, nil); c != nil {
+			if lo, hi, ok := intRange(binOp.Type()); ok && (c.Cmp(lo) < 0 || c.Cmp(hi) > 0) {
+				span := new(big.Int).Add(new(big.Int).Sub(hi, lo), big.NewInt(1))
+				w := new(big.Int).Sub(c, lo)
+				w.Mod(w, span) // Mod is Euclidean: 0 <= w < span
+				return &SCEVConstant{Value: w.Add(w, lo)}
+			}
+		}
 		// Size guard: operands are shared (x2 := x1 + x1), so the expression is a DAG whose
 		// expansion doubles per level. Everything downstream (invariance checks, evaluation,
 		// rendering) walks the expansion, so an oversized expression is kept opaque instead.
